@@ -334,4 +334,60 @@ theorem Aln.appendColumns_eq (cx : Ctx) (h : Cells) (a : Aln) (rows : Nat) (cols
 /-- every column slice of the alignment lies in an allocated array -/
 def Aln.ColsValid (h : Cells) (a : Aln) : Prop := ∀ c ∈ a.cols, c.arr < h.arrays.length
 
+/-! ### AppendEach on column-stored alignments -/
+
+theorem eachColumn_length (cx : Ctx) (runs : List (List QL)) (i : Nat) :
+    (Aln.eachColumn cx runs i).length = runs.length := by
+  simp [Aln.eachColumn]
+
+/-- invariant of the loop of `AppendEach` after `k` columns -/
+theorem appendEach_prefix (cx : Ctx) (rows : Nat) (runs : List (List QL)) (hr : runs.length = rows)
+    (h : Cells) (a : Aln) :
+    ∀ k, ∃ hk ak news,
+      (List.range k).foldl (Aln.eachStep cx rows runs) (some (h, a)) = some (hk, ak) ∧
+      ak.cols = a.cols ++ news ∧ news.length = k ∧
+      (∀ j s, news[j]? = some s →
+        hk.read s = (Aln.eachColumn cx runs j).map (Lin.stored a.q) ∧
+        h.arrays.length ≤ s.arr ∧ s.arr < hk.arrays.length) ∧
+      (∀ b, b < h.arrays.length → hk.arr b = h.arr b) ∧ h.arrays.length ≤ hk.arrays.length ∧
+      ak.q = a.q ∧ ak.subs = a.subs ∧ ak.strand = a.strand ∧ ak.off = a.off := by
+  intro k
+  induction k with
+  | zero =>
+    exact ⟨h, a, [], rfl, by simp, rfl, fun j s hs => by simp at hs, fun _ _ => rfl, Nat.le_refl _,
+      rfl, rfl, rfl, rfl⟩
+  | succ k ih =>
+    obtain ⟨hk, ak, news, hfold, hcols, hlen, hnews, hold, hsz, hq, hsubs, hstr, hoff⟩ := ih
+    rw [List.range_succ, List.foldl_append, hfold]
+    simp only [List.foldl_cons, List.foldl_nil, Aln.eachStep]
+    have hok : [Aln.eachColumn cx runs k].any (fun c => c.length != rows) = false := by
+      simp [eachColumn_length, hr]
+    rw [Aln.appendColumns_eq cx hk ak rows _ hok]
+    obtain ⟨one, h2, hall, hsz2, hfr⟩ := colsFold_spec cx ak.q [Aln.eachColumn cx runs k] hk ak.cols
+    cases hall with
+    | cons hcs hrest =>
+      cases hrest
+      rename_i s
+      refine ⟨_, _, news ++ [s], rfl, ?_, by simp [hlen], ?_, ?_, by omega, hq, hsubs, hstr, hoff⟩
+      · simp only; rw [h2, hcols]; simp
+      · intro j s' hs'
+        by_cases hj : j < news.length
+        · rw [List.getElem?_append_left hj] at hs'
+          obtain ⟨e1, e2, e3⟩ := hnews j s' hs'
+          refine ⟨?_, e2, by omega⟩
+          rw [read_congr_arr _ _ _ (hfr _ e3)]; exact e1
+        · rw [List.getElem?_append_right (by omega)] at hs'
+          have hj0 : j - news.length = 0 := by
+            cases hx : j - news.length with
+            | zero => rfl
+            | succ m => rw [hx] at hs'; simp at hs'
+          rw [hj0] at hs'
+          simp only [List.getElem?_cons_zero, Option.some.injEq] at hs'
+          subst hs'
+          have hjk : j = k := by omega
+          subst hjk
+          refine ⟨by rw [hcs.1, hq], by have := hcs.2.1; omega, hcs.2.2.1⟩
+      · intro b hb
+        rw [hfr b (by omega), hold b hb]
+
 end Biogo.Containers
